@@ -147,6 +147,31 @@ pub open spec fn key_stable<E>(q: CoapRequest<E>) -> bool {
 pub open spec fn st_wf(s: BlockState) -> bool { s.last_request_block2 is Some ==> s.last_request_block2->0.size_exponent <= 7 }
 pub open spec fn cache_wf(c: StateCache) -> bool { forall|k: int| #[trigger] c.m@.contains_key(k) ==> st_wf(c.m@[k]) }
 
+// ---------------------------------------------------------------- block-size negotiation (C10)
+// Contract of negotiate_block_size_if_necessary.  Every conjunct is an assertion of the Kani harnesses
+// negotiate_never_panics (all budgets) / negotiate_within_budget (budgets overhead+28 ..= 1280), which
+// prove it on the real function over all inputs (kani/src/negotiate.rs - keep in sync).
+pub open spec fn neg_post(rb: Option<BlockValue>, ms: int, pl: int, m: int, r: Result<Option<BlockValue>, HandlingError>) -> bool {
+    let ov = ms - pl;
+    &&& (r is Err ==> r->Err_0.code is Some)
+    &&& (r is Ok && r->Ok_0 is Some ==> r->Ok_0->0.size_exponent <= 7)
+    &&& (rb is Some && r is Ok ==> r->Ok_0 is Some)
+    &&& (r is Ok && r->Ok_0 is None ==> rb is None && pl + ov + 12 < m)
+    &&& (ov + 28 <= m <= 1280 && r is Err ==> rb is Some)
+    &&& (ov + 28 <= m <= 1280 && r is Ok && r->Ok_0 is Some ==> {
+            let b = r->Ok_0->0;
+            // a power of two between 16 and 1024 that fits the budget with the 12-byte option reserve
+            &&& b.size_exponent <= 6
+            &&& sz(b.size_exponent) + ov + 12 <= m
+            // never larger than the client's; exactly the client's (and its block number) when that fits with 32 bytes to spare
+            &&& (rb is Some ==> sz(b.size_exponent) <= sz(rb->0.size_exponent)
+                    && (sz(rb->0.size_exponent) + ov + 32 <= m ==> b.size_exponent == rb->0.size_exponent && b.num == rb->0.num)
+                    && (b.size_exponent == rb->0.size_exponent ==> b.num == rb->0.num))
+            &&& (rb is None ==> b.num == 0 && b.more && pl >= m - ov - 12)
+        })
+}
+pub open spec fn deref_opt(rb: Option<&BlockValue>) -> Option<BlockValue> { if rb is Some { Some(*rb->0) } else { None } }
+
 // ---------------------------------------------------------------- step contracts (C08/C09)
 pub open spec fn first_block(v: Map<u16, Seq<Seq<u8>>>, n: u16) -> Option<BlockValue> {
     if v.contains_key(n) && v[n].len() > 0 { block_of_bytes(v[n][0]) } else { None }
@@ -192,6 +217,30 @@ pub open spec fn served<E>(q0: CoapRequest<E>, q1: CoapRequest<E>, blk: BlockVal
                         &&& type_bits_of(m1.header.ver_type_tkl) == type_bits_of(cached.header.ver_type_tkl)
                     }))
             })
+}
+pub open spec fn same_packet_view(a: Packet, b: Packet) -> bool { a.header == b.header && a.token@ == b.token@ && opts_view(a.options) == opts_view(b.options) && a.payload@ == b.payload@ }
+// what intercept_response does with the application's reply (C08: decide to fragment, cache, serve block 0;
+// C10: the size comes from the negotiation, an unfragmented reply fits the budget)
+pub open spec fn intercept_resp_post<E>(q0: CoapRequest<E>, q1: CoapRequest<E>, st0: BlockState, st1: BlockState, m: int, r: Result<bool, HandlingError>) -> bool {
+    if q0.response is None || opts_view(q0.response->0.message.options).contains_key(23) {
+        // no reply, or the application fragments by itself: hands off
+        r is Ok && !r->Ok_0 && q1 == q0 && st1 == st0
+    } else {
+        let msg = q0.response->0.message; let pl = msg.payload@.len() as int; let ov = overhead_of(msg) as int;
+        exists|rn: Result<Option<BlockValue>, HandlingError>| #[trigger] neg_post(st0.last_request_block2, ov + pl, pl, m, rn) && (
+            if rn is Err { r is Err }
+            else if rn->Ok_0 is None { r is Ok && !r->Ok_0 && q1 == q0 && st1 == st0 }       // left unfragmented
+            else {
+                let nb = rn->Ok_0->0;
+                // block `nb` of the reply is served at once ...
+                &&& exists|rs: Result<bool, HandlingError>| #[trigger] served(q0, q1, nb, msg, rs) && (rs is Err ==> r is Err)
+                        && (rs is Ok ==> r is Ok && r->Ok_0 == rs->Ok_0
+                            // ... and the whole reply is cached exactly when more blocks remain
+                            && (rs->Ok_0 ==> st1.cached_response is Some && same_packet_view(st1.cached_response->0, msg)
+                                    && st1.last_request_block2 == st0.last_request_block2 && st1.cached_request_payload == st0.cached_request_payload)
+                            && (!rs->Ok_0 ==> st1 == st0))
+            })
+    }
 }
 proof fn lemma_spliced_len(dst: Seq<u8>, a: int, b: int, with: Seq<u8>, max: int)
     requires 0 <= a <= b, b <= dst.len() + max, 0 <= max
@@ -339,11 +388,7 @@ def build(repo):
     # ---- callee contracts (stubs with the real signatures) -----------------------------------
     u.stub_fn((BH, 'negotiate_block_size_if_necessary'))
     u.contract((BH, 'negotiate_block_size_if_necessary'), '''        requires request_block is Some ==> request_block->0.size_exponent <= 7, total_payload_size <= message_size, message_size <= usize::MAX / 4
-        ensures
-            r is Err ==> r->Err_0.code is Some,
-            r is Ok && r->Ok_0 is Some ==> r->Ok_0->0.size_exponent <= 7,
-            request_block is Some && r is Ok ==> r->Ok_0 is Some,
-            r is Ok && r->Ok_0 is None ==> request_block is None && total_payload_size + (message_size - total_payload_size) + 12 < max_total_message_size''')
+        ensures neg_post(deref_opt(request_block), message_size as int, total_payload_size as int, max_total_message_size as int, r)''')
     u.stub_fn((BH, 'compute_message_size_hack'))
     u.contract((BH, 'compute_message_size_hack'), '''        ensures *final(packet) == *old(packet), r is Err ==> r->Err_0.code is Some,
             r is Ok ==> r->Ok_0 == overhead_of(*old(packet)) + old(packet).payload@.len() && r->Ok_0 <= usize::MAX / 4''')
@@ -440,7 +485,10 @@ def build(repo):
     u.contract((BH, 'intercept_response'), '''        requires cache_wf(old(self).states), old(request).message.payload@.len() <= usize::MAX / 8,
             old(request).response is Some ==> old(request).response->0.message.payload@.len() <= usize::MAX / 8,
         ensures cache_wf(final(self).states),
-            final(request).message == old(request).message,''' + FRAME, props=['C08', 'C11', 'C12'])
+            final(request).message == old(request).message,
+            final(self).states.m@.contains_key(key_of(*old(request))),
+            r is Ok ==> exists|st0: BlockState| ((old(self).states.m@.contains_key(key_of(*old(request))) && st0 == old(self).states.m@[key_of(*old(request))]) || is_default(st0))
+                && #[trigger] intercept_resp_post(*old(request), *final(request), st0, final(self).states.m@[key_of(*old(request))], old(self).config.max_total_message_size as int, r), // @props C08 C10''' + FRAME, props=['C08', 'C10', 'C11', 'C12'])
     u.contract((BH, 'maybe_handle_request_block2'), '''        requires st_wf(*old(state))
         ensures
             st_wf(*final(state)),
@@ -527,6 +575,37 @@ def build(repo):
                     assert((request_block1.num as int) * sz(e) <= 65535 * 2048) by (nonlinear_arith)
                         requires 0 <= request_block1.num as int <= 65535, 0 <= sz(e) <= 2048;
                 }''')
+    IR = (BH, 'intercept_response')
+    u.after_stmt(IR, r'let state = states_entry', '''        let ghost st0 = *state;
+        let ghost q0 = *request;
+        let ghost m = self.config.max_total_message_size as int;
+        let ghost mut g_nb: Option<BlockValue> = None;''')
+    u.after_stmt(IR, r'let cached_response = ', '''                    proof { g_nb = Some(request_block2); }''')
+    u.replace_in(IR, 'final-hint', r'\n(\s*)Ok\(false\)\s*\}$', r'''
+\1proof {
+\1    if q0.response is None || opts_view(q0.response->0.message.options).contains_key(23) {
+\1        assert(*request == q0 && *state == st0);
+\1    } else {
+\1        let msg = q0.response->0.message;
+\1        let ms = overhead_of(msg) as int + msg.payload@.len() as int; let pl = msg.payload@.len() as int;
+\1        if g_nb is None {
+\1            assert(neg_post(st0.last_request_block2, ms, pl, m, Ok(None)));
+\1            assert(*request == q0 && *state == st0);
+\1        } else {
+\1            assert(neg_post(st0.last_request_block2, ms, pl, m, Ok(Some(g_nb->0))));
+\1            assert(served(q0, *request, g_nb->0, msg, Ok(false)));
+\1        }
+\1    }
+\1    assert(intercept_resp_post(q0, *request, st0, *state, m, Ok(false)));
+\1}
+\1Ok(false)
+    }''')
+    u.before(IR, r'return Ok\(true\);', '''                        proof {
+                            let msg = q0.response->0.message;
+                            assert(neg_post(st0.last_request_block2, overhead_of(msg) as int + msg.payload@.len() as int, msg.payload@.len() as int, m, Ok(Some(request_block2))));
+                            assert(served(q0, *request, request_block2, msg, Ok(true)));
+                            assert(intercept_resp_post(q0, *request, st0, *state, m, Ok(true)));
+                        }''')
     for fn, pr in [('theorem_c09_upload_delivers_body', ['C09']), ('lemma_b1_idempotent', ['C09']), ('lemma_after_blocks', ['C09'])]:
         u.probe(fn)
         u.props(fn, pr)
